@@ -436,7 +436,11 @@ func convertStream(w *World, seed uint64, n int, out io.Writer) int {
 		// queue three applications through the real message path
 		var txs []Tx
 		for _, op := range []int{5, 3, 8} {
-			txs = append(txs, Tx{Signer: op, Msgs: []Msg{{Kind: "CREATE", Args: []string{itoa(op), itoa(op), "4", "1", "2", "3", "4", "200000000000000000", "500000000000000000", "100000000000000000", "1"}}}})
+			target := itoa(op)
+			if op == 8 {
+				target += "U" // one applicant spells its operator address in upper case (valid bech32): it must come back as written
+			}
+			txs = append(txs, Tx{Signer: op, Msgs: []Msg{{Kind: "CREATE", Args: []string{target, itoa(op), "4", "1", "2", "3", "4", "200000000000000000", "500000000000000000", "100000000000000000", "1"}}}})
 		}
 		o := node.ExecBlock(Block{DtNs: 1_000_000_000, Txs: txs}, nil)
 		for i, t := range o.Txs {
@@ -566,7 +570,9 @@ func convertStream(w *World, seed uint64, n int, out io.Writer) int {
 			txs = append(txs, Tx{Signer: -1, Msgs: []Msg{{Kind: "RMPENDING", Args: []string{itoa(op)}}}})
 		}
 		txs = append(txs, Tx{Signer: -1, Msgs: []Msg{{Kind: "PARAMS", Args: []string{"8000000000", "100", "7", "10000", "0", "0"}}}})
-		txs = append(txs, Tx{Signer: -1, Msgs: []Msg{{Kind: "SETPOWER", Args: []string{"8", "1000000", "1"}}}})
+		// (the applicant filed under the upper-case spelling of its address is addressed by that spelling: the pending list
+		// is searched by string)
+		txs = append(txs, Tx{Signer: -1, Msgs: []Msg{{Kind: "SETPOWER", Args: []string{"8U", "1000000", "1"}}}})
 		o := node.ExecBlock(Block{DtNs: 1_000_000_000, Txs: txs}, nil)
 		for i, t := range o.Txs {
 			if t.Code != 0 {
